@@ -102,6 +102,10 @@ Render(ids, gap, fill, B(_)) == Concat([k \in 1..Len(ids) |-> Fill(gap, fill) \o
 Order(n, rev) == [k \in 1..n |-> IF rev THEN n + 1 - k ELSE k]
 Tagged(tag, idx) == [k \in 1..Len(idx) |-> <<tag, idx[k]>>]
 
+\* "Don't care" bytes of a container image: the filler between items (p.fill), p.tail filler bytes
+\* after the last item, and reserved / padding fields, which carry the junk byte p.junk.
+J16(p) == <<p.junk, p.junk>>
+J32(p) == <<p.junk, p.junk, p.junk, p.junk>>
 Extent(from, n) == <<from, from + n>>
 \* prefixes shorter than this must be rejected
 MinOk(exts) == IF Len(exts) = 0 THEN 0 ELSE MaxOf({ exts[k][2] : k \in 1..Len(exts) })
@@ -115,7 +119,7 @@ Disjoint(exts) == \A a, b \in 1..Len(exts) : a # b => (exts[a][2] <= exts[b][1] 
    +8 u32 payload pointer relative to the data-section base  +0xC u32 format
    +0x10 u16 width  +0x12 u16 height  +0x14 u8 mip levels  +0x15 u8 type
    +0x16 u16 cube direction  +0x18 u32 bitmap-size pointer  +0x1C u32 time stamp.
-   Placement p = [namesFirst, rev, gap, lead, fill]: lead = distance of the
+   Placement p = [namesFirst, rev, gap, lead, fill, tail, junk]: lead = distance of the
    data-section base before the first payload (<= gap).  *)
 CtpkIds(v, p) ==
   LET o     == Order(Len(v), p.rev)
@@ -146,7 +150,7 @@ CtpkFile(v, p) ==
       base == IF n = 0 THEN pl.end ELSE MinOf({ ext[i][1] : i \in 1..n }) - p.lead
       dlen == IF n = 0 THEN 0 ELSE MinOk(ext) - base
       head == <<67, 84, 80, 75>> \o LE16(1) \o LE16(n) \o LE32(base) \o LE32(dlen)
-              \o LE32(CtpkAt(pl, <<"hash", 0>>)) \o LE32(CtpkAt(pl, <<"short", 0>>)) \o Fill(8, 0)
+              \o LE32(CtpkAt(pl, <<"hash", 0>>)) \o LE32(CtpkAt(pl, <<"short", 0>>)) \o Fill(8, p.junk)
       Info(i) == LE32(CtpkAt(pl, <<"name", i>>)) \o LE32(Len(v[i].payload))
                  \o LE32(ext[i][1] - base) \o LE32(v[i].fmt) \o LE16(v[i].w) \o LE16(v[i].h)
                  \o <<1, 0>> \o LE16(0) \o LE32(CtpkAt(pl, <<"bsz", 0>>) + 4 * (i - 1)) \o LE32(1600000000 + i)
@@ -155,8 +159,8 @@ CtpkFile(v, p) ==
                  [] id[1] = "hash"  -> Concat([i \in 1..n |-> LE32(305419896 + 4097 * i) \o LE32(i - 1)])
                  [] id[1] = "short" -> Concat([i \in 1..n |-> <<v[i].fmt, 1, 0, 0>>])
                  [] id[1] = "bsz"   -> Concat([i \in 1..n |-> LE32(Len(v[i].payload))])
-  IN head \o Concat([i \in 1..n |-> Info(i)]) \o Render(pl.ids, p.gap, p.fill, B)
-CtpkCanonP == [namesFirst |-> TRUE, rev |-> FALSE, gap |-> 0, lead |-> 0, fill |-> 0]
+  IN head \o Concat([i \in 1..n |-> Info(i)]) \o Render(pl.ids, p.gap, p.fill, B) \o Fill(p.tail, p.fill)
+CtpkCanonP == [namesFirst |-> TRUE, rev |-> FALSE, gap |-> 0, lead |-> 0, fill |-> 0, tail |-> 0, junk |-> 0]
 CtpkCanon(v) == CtpkFile(v, CtpkCanonP)
 CtpkLayouts(v, P) == { CtpkFile(v, p) : p \in P }
 CtpkPlacementOK(v, p) == p.lead <= p.gap /\ p.gap >= 0
@@ -202,7 +206,7 @@ CtpkCanonHead(name, fmt, w, h) ==
    +0x1C u32 name (relative to strings, NUL-terminated).  Command block:
    +0 u16 height  +2 u16 width  +0x10 u32 payload (relative to raw data)
    +0x18 u32 format.
-   Placement p = [compat, secs, rev, tableFirst, gap, slead, fill]; secs is a
+   Placement p = [compat, secs, rev, tableFirst, gap, slead, fill, tail, junk]; secs is a
    permutation of <<"C","S","M","R">>.  *)
 BchContentsHead == 60
 BchStructSize   == 36
@@ -243,26 +247,26 @@ BchFile(v, p) ==
               \o L("C") \o L("S") \o L("M") \o L("R")
               \o (IF ext THEN LE32(0) ELSE <<>>) \o LE32(0) \o LE32(0) \o LE32(0) \o LE16(0) \o LE16(0)
       \* contents header: (pointer table, count, name tree) triples; textures are the 4th
-      chead == LE32(BchContentsHead) \o LE32(0) \o LE32(0)
-               \o LE32(BchContentsHead) \o LE32(0) \o LE32(0)
-               \o LE32(BchContentsHead) \o LE32(0) \o LE32(0)
-               \o LE32(IF n = 0 THEN BchContentsHead ELSE BchCOff(v, p, <<"tab", 0>>)) \o LE32(n) \o LE32(0)
-               \o LE32(BchContentsHead) \o LE32(0) \o LE32(0)
+      chead == LE32(BchContentsHead) \o LE32(0) \o J32(p)
+               \o LE32(BchContentsHead) \o LE32(0) \o J32(p)
+               \o LE32(BchContentsHead) \o LE32(0) \o J32(p)
+               \o LE32(IF n = 0 THEN BchContentsHead ELSE BchCOff(v, p, <<"tab", 0>>)) \o LE32(n) \o J32(p)
+               \o LE32(BchContentsHead) \o LE32(0) \o J32(p)
       CB(id) == IF id[1] = "tab" THEN Concat([i \in 1..n |-> LE32(BchCOff(v, p, <<"st", i>>))])
                 ELSE LET i == id[2] IN
                      LE32(BchMOff(v, p, i)) \o LE32(BchMOff(v, p, i)) \o LE32(BchMOff(v, p, i))
-                     \o LE32(7) \o <<v[i].fmt, 1>> \o LE16(0) \o LE32(0) \o LE32(0)
-                     \o LE32(BchSOff(v, p, i)) \o LE32(0)
+                     \o LE32(7) \o <<v[i].fmt, 1>> \o J16(p) \o J32(p) \o J32(p)
+                     \o LE32(BchSOff(v, p, i)) \o J32(p)
       SB(id) == Utf8Name(v[id[2]].name) \o <<0>>
       MB(id) == LET i == id[2] IN
-                LE16(v[i].h) \o LE16(v[i].w) \o LE32(983170) \o LE32(0) \o LE32(983173)
+                LE16(v[i].h) \o LE16(v[i].w) \o LE32(983170) \o J32(p) \o LE32(983173)
                 \o LE32(BchROff(v, p, i)) \o LE32(983174) \o LE32(v[i].fmt) \o LE32(983182)
       RB(id) == v[id[2]].payload
       Sec(s) == CASE s = "C" -> chead \o Render(BchCIds(v, p), p.gap, p.fill, CB)
                   [] s = "S" -> Fill(p.slead, 46) \o Render(BchSIds(v, p), 0, p.fill, SB)
                   [] s = "M" -> Render(BchMIds(v, p), p.gap, p.fill, MB)
                   [] s = "R" -> Render(BchRIds(v, p), p.gap, p.fill, RB)
-  IN head \o Concat([k \in 1..4 |-> Fill(p.gap, p.fill) \o Sec(p.secs[k])])
+  IN head \o Concat([k \in 1..4 |-> Fill(p.gap, p.fill) \o Sec(p.secs[k])]) \o Fill(p.tail, p.fill)
 BchLayouts(v, P) == { BchFile(v, p) : p \in P }
 BchPlacementOK(v, p) ==
   /\ p.compat \in {7, 34}
@@ -313,7 +317,7 @@ BchRead(f) ==
    +0x48 u32 payload offset (self-relative).  Self-relative offsets point
    forwards (as in every file the tools write), so a dictionary precedes its
    objects and an object precedes its name and payload.
-   Placement p = [ord, decoy, rev, gap, fill]; decoy = a (different, empty)
+   Placement p = [ord, decoy, rev, gap, fill, tail, junk]; decoy = a (different, empty)
    dictionary is present in slot 0.  *)
 CgfxTxobSize == 88
 CgfxDictSize(n) == 28 + 16 * n
@@ -341,7 +345,7 @@ CgfxExtents(v, p) ==
 CgfxFile(v, p) ==
   LET n  == Len(v)
       pl == CgfxPlan(v, p)
-      head == <<67, 71, 70, 88, 255, 254>> \o LE16(20) \o LE32(83886080) \o LE32(pl.end) \o LE32(1)
+      head == <<67, 71, 70, 88, 255, 254>> \o LE16(20) \o LE32(83886080) \o LE32(pl.end + p.tail) \o LE32(1)
       \* slot k of DATA: its offset field is at 0x14 + 8 + 8*k + 4
       Slot(k) == CASE k = 1 -> LE32(n) \o LE32(CgfxAt(pl, <<"dict", 1>>) - (20 + 8 + 8 * k + 4))
                    [] k = 0 /\ p.decoy -> LE32(0) \o LE32(CgfxAt(pl, <<"dict", 0>>) - (20 + 8 + 8 * k + 4))
@@ -363,12 +367,12 @@ CgfxFile(v, p) ==
                LE32(536870929) \o <<84, 88, 79, 66>> \o LE32(83886080)
                \o LE32(CgfxAt(pl, <<"name", id[2]>>) - (at + 12)) \o LE32(0) \o LE32(0)
                \o LE32(t.h) \o LE32(t.w) \o LE32(26458) \o LE32(5121) \o LE32(1) \o LE32(0) \o LE32(0)
-               \o LE32(t.fmt) \o LE32(0) \o LE32(t.h) \o LE32(t.w)
+               \o LE32(t.fmt) \o J32(p) \o LE32(t.h) \o LE32(t.w)
                \o LE32(Len(t.payload)) \o LE32(CgfxAt(pl, <<"pay", id[2]>>) - (at + 72))
-               \o LE32(0) \o LE32(32) \o LE32(0)
+               \o J32(p) \o LE32(32) \o J32(p)
           [] id[1] = "name" -> Utf8Name(v[id[2]].name) \o <<0>>
           [] id[1] = "pay"  -> v[id[2]].payload
-  IN head \o data \o Render(pl.ids, p.gap, p.fill, B)
+  IN head \o data \o Render(pl.ids, p.gap, p.fill, B) \o Fill(p.tail, p.fill)
 CgfxLayouts(v, P) == { CgfxFile(v, p) : p \in P }
 CgfxPlacementOK(v, p) == p.ord \in 1..3
 
@@ -401,7 +405,7 @@ CgfxRead(f) ==
    u16 width, u32 format (9 = CI8), u32 data (absolute), u32 wrap s, u32 wrap t,
    u32 min filter, u32 mag filter, f32 LOD bias, u8 edge LOD, u8 min LOD,
    u8 max LOD, u8 unpacked.
-   Placement p = [ord, rev, gap, fill].  *)
+   Placement p = [ord, rev, gap, fill, tail, junk].  *)
 TplImgHdrSize == 36
 TplPalHdrSize == 12
 TplIds(v, p) ==
@@ -438,13 +442,13 @@ TplFile(v, p) ==
         CASE id[1] = "tab" -> Concat([i \in 1..n |-> BE32(TplAt(pl, <<"ih", i>>)) \o BE32(TplAt(pl, <<"ph", i>>))])
           [] id[1] = "ih"  -> LET t == v[id[2]] IN
                               BE16(t.h) \o BE16(t.w) \o BE32(9) \o BE32(TplAt(pl, <<"img", id[2]>>))
-                              \o BE32(0) \o BE32(0) \o BE32(1) \o BE32(1) \o BE32(0) \o <<0, 0, 0, 0>>
+                              \o BE32(0) \o BE32(0) \o BE32(1) \o BE32(1) \o J32(p) \o J32(p)
           [] id[1] = "ph"  -> LET t == v[id[2]] IN
-                              BE16(Len(t.pal) \div 2) \o <<0, 0>> \o BE32(2) \o BE32(TplAt(pl, <<"pal", id[2]>>))
+                              BE16(Len(t.pal) \div 2) \o <<0, p.junk>> \o BE32(2) \o BE32(TplAt(pl, <<"pal", id[2]>>))
           [] id[1] = "img" -> v[id[2]].payload
           [] id[1] = "pal" -> v[id[2]].pal
-  IN head \o Render(pl.ids, p.gap, p.fill, B)
-TplCanonP == [ord |-> 1, rev |-> FALSE, gap |-> 0, fill |-> 0]
+  IN head \o Render(pl.ids, p.gap, p.fill, B) \o Fill(p.tail, p.fill)
+TplCanonP == [ord |-> 1, rev |-> FALSE, gap |-> 0, fill |-> 0, tail |-> 0, junk |-> 0]
 TplCanon(v) == TplFile(v, TplCanonP)
 TplLayouts(v, P) == { TplFile(v, p) : p \in P }
 TplPlacementOK(v, p) == p.ord \in 1..3
@@ -481,8 +485,10 @@ File(c, v, p) == CASE c = "ctpk" -> CtpkFile(v, p) [] c = "bch" -> BchFile(v, p)
                    [] c = "cgfx" -> CgfxFile(v, p) [] c = "tpl" -> TplFile(v, p)
 Extents(c, v, p) == CASE c = "ctpk" -> CtpkExtents(v, p) [] c = "bch" -> BchExtents(v, p)
                       [] c = "cgfx" -> CgfxExtents(v, p) [] c = "tpl" -> TplExtents(v, p)
-PlacementOK(c, v, p) == CASE c = "ctpk" -> CtpkPlacementOK(v, p) [] c = "bch" -> BchPlacementOK(v, p)
-                          [] c = "cgfx" -> CgfxPlacementOK(v, p) [] c = "tpl" -> TplPlacementOK(v, p)
+PlacementOK(c, v, p) ==
+  /\ p.gap >= 0 /\ p.tail >= 0 /\ p.fill \in 0..255 /\ p.junk \in 0..255
+  /\ CASE c = "ctpk" -> CtpkPlacementOK(v, p) [] c = "bch" -> BchPlacementOK(v, p)
+       [] c = "cgfx" -> CgfxPlacementOK(v, p) [] c = "tpl" -> TplPlacementOK(v, p)
 ValueOK(c, v) == Len(v) \in 0..6 /\ \A i \in 1..Len(v) : IF c = "tpl" THEN IsTexTpl(v[i]) ELSE IsTex3DS(v[i])
 \* well-formedness of the prefix of length L of f
 WellFormedN(c, f, L) == CASE c = "ctpk" -> CtpkWellFormedN(f, L) [] c = "bch" -> BchWellFormedN(f, L)
